@@ -2,7 +2,7 @@
 # usage: seedverify.sh <id> <dir with patch.diff demo_test.go>   -- confirms a seeded change in a scratch worktree of /repo HEAD
 set -u
 export GOFLAGS=-mod=mod GOPROXY=off GOSUMDB=off GOTOOLCHAIN=local
-ID=$1; SRC=$2; WT=/tmp/wtv/$ID
+ID=$1; SRC=$2; WT=/tmp/wtv/$ID-$$
 rm -rf $WT; git -C /repo worktree prune; git -C /repo worktree add --detach $WT HEAD -q || exit 2
 cd $WT
 # where does the demo go?
